@@ -336,10 +336,10 @@ def all_cfgs(rng=None, n=None):
 
 
 def exhaustive_cases():
-    """the fixed program x project display (9) x one metadata override (file / module / type / procedure x 8
-    word sets, or none given) x proc_internals x hide_undoc"""
+    """the fixed program x project display (9) x one metadata override (file / module / type / procedure /
+    submodule x 8 word sets, or none given) x proc_internals x hide_undoc"""
     out = []
-    for level in (None, "file", "module", "type", "procedure"):
+    for level in (None, "file", "module", "type", "procedure", "submodule"):
         for meta in ([[]] if level is None else D.DISPLAYS[1:]):
             for cfg in all_cfgs():
                 out.append((level, meta, cfg))
@@ -412,7 +412,7 @@ def run(chk):
     cases = exhaustive_cases()
     total = len(cases)
     if quick:
-        cases = rng.sample(cases, 220)
+        cases = rng.sample(cases, 190)
     by_text = collections.defaultdict(list)
     for level, meta, cfg in cases:
         by_text[(level, tuple(meta))].append(cfg)
@@ -427,18 +427,32 @@ def run(chk):
         check_project(chk, files, texts, cfgs, f"fixed program, display {list(meta)} at {level}", stats)
     chk.extra["exhaustive"] = {"cases": total, "run": len(cases), "complete": len(cases) == total,
                                "domain": "fixed program x project display {8 subsets, none} x one metadata "
-                                         "override at file/module/type/procedure level {8 word sets} or none x "
+                                         "override at file/module/type/procedure/submodule level {8 word sets} or none x "
                                          "proc_internals x hide_undoc"}
 
     # (2) random projects (enums, common blocks, namelists, final procedures, submodules with module-procedure
     #     implementations, internal procedures, metadata at every level) under random configurations
-    for k in range(24 if quick else 400):
+    for k in range(18 if quick else 400):
         files = D.gen_project(rng)
         texts = D.render_project(files)
         cfgs = all_cfgs(rng, 6 if quick else 12)
         for cfg in cfgs:
             chk.count(("random", k, json.dumps(cfg, sort_keys=True)), nontrivial=True)
         check_project(chk, files, texts, cfgs, "random project", stats)
+
+    # (2b) submodules with short- and long-form implementations of separate module procedures, namelists in
+    #      them, under configurations that select the (private) contents of submodules
+    sub_knobs = {"p_submodule": 1.0, "p_namelist": 0.8, "p_program": 0.1, "nfiles": 1}
+    priv_cfgs = [c for c in all_cfgs() if "private" in c["display"]]
+    for k in range(6 if quick else 120):
+        files = D.gen_project(rng, sub_knobs)
+        texts = D.render_project(files)
+        cfgs = rng.sample(priv_cfgs, 3) + all_cfgs(rng, 2)
+        for cfg in cfgs:
+            chk.count(("submodule", k, json.dumps(cfg, sort_keys=True)), nontrivial=True)
+        check_project(chk, files, texts, cfgs, "random project with submodules", stats)
+        if k % 4 == 0:
+            end_to_end_one(chk, files, texts, cfgs[0], stats, graph=False)
 
     # (3) end to end: tracer words, pages, links and graph nodes of full runs
     for k in range(8 if quick else 80):
